@@ -79,19 +79,24 @@ Proof.
   destruct (qnum_sign_int _ _ Hq) as [H1 H2]. rewrite H1, H2. auto.
 Qed.
 
+Ltac zb :=
+  repeat (match goal with |- context [(?a <? ?b)%Z] => destruct (Z.ltb_spec a b) end; cbn [andb orb negb]);
+  repeat (match goal with |- context [(?a =? ?b)%Z] => destruct (Z.eqb_spec a b) end; cbn [andb orb negb]);
+  repeat (match goal with |- context [(?a <=? ?b)%Z] => destruct (Z.leb_spec a b) end; cbn [andb orb negb]);
+  try reflexivity; try (exfalso; lia).
+
 Lemma in_finite_int_range : forall n F k p, ipos k =p ppos p ->
     in_finite (int_range n F) p = (F <=? k)%Z && (k <? F + Z.of_nat n)%Z.
 Proof.
   induction n as [|n IH]; intros F k p Hk.
-  - simpl. destruct (Z.leb_spec F k); destruct (Z.ltb_spec k (F + 0)); try reflexivity; lia.
+  - change (in_finite (int_range 0 F) p) with false. change (Z.of_nat 0) with 0%Z. zb.
   - cbn [int_range]. rewrite in_finite_cons'. rewrite (IH (F + 1)%Z k p Hk).
     destruct (at_pos (NInt F) p) eqn:Ea.
     + apply at_pos_eq in Ea. rewrite npos_int in Ea. assert (F = k) by (apply ipos_eq; pord). subst.
-      simpl. destruct (Z.leb_spec k k); destruct (Z.ltb_spec k (k + Z.of_nat (S n))); try reflexivity; lia.
+      cbn [orb]. zb.
     + assert (F <> k).
       { intro; subst. assert (at_pos (NInt k) p = true) by (apply at_pos_iff; rewrite npos_int; exact Hk). congruence. }
-      simpl. destruct (Z.leb_spec (F + 1) k); destruct (Z.ltb_spec k (F + 1 + Z.of_nat n));
-        destruct (Z.leb_spec F k); destruct (Z.ltb_spec k (F + Z.of_nat (S n))); try reflexivity; lia.
+      cbn [orb]. zb.
 Qed.
 Lemma in_finite_int_range_only : forall n F p, in_finite (int_range n F) p = true -> exists k, ipos k =p ppos p.
 Proof.
@@ -115,6 +120,52 @@ Proof.
     destruct (pos_cmp_spec (npos e) (ipos k)) as [[-> H4]|[[-> H4]|[-> H4]]]; try (exfalso; pord); reflexivity.
 Qed.
 
+(* the position of a finite endpoint relative to an integer k, in terms of its ceiling / floor *)
+Lemma cmp_ceil : forall s F0 k, num_ok s = true -> is_infinite s = false -> n_ceil s = NInt F0 ->
+    (forall x, num_eqb (NInt x) s = is_integer s && (x =? F0)%Z) /\
+    match pos_cmp (npos s) (ipos k) with
+    | Eq => is_integer s = true /\ F0 = k
+    | Lt => if is_integer s then (F0 < k)%Z else (F0 <= k)%Z
+    | Gt => (k < F0)%Z
+    end.
+Proof.
+  intros s F0 k Hs Hi HF. destr_num s.
+  - simpl in HF. inversion HF; subst. split; [intro x; reflexivity|].
+    rewrite npos_int, ipos_cmp. simpl is_integer.
+    destruct (Z.compare_spec F0 k); auto.
+  - simpl in HF. inversion HF; subst. clear HF. split; [intro x; reflexivity|].
+    apply num_ok_rat in Hs. destruct Hs as [Hg Hd].
+    change (npos (NRat n d)) with (PFin (n # d) 0). simpl is_integer.
+    rewrite rat_ipos_cmp.
+    assert (Hpos : (0 < Zpos d)%Z) by lia.
+    destruct (Z.compare_spec n (k * Zpos d)) as [E|E|E].
+    + exfalso. apply (rat_not_int n d k Hg Hd). apply Qcmp_Eq. unfold Qeq; simpl. lia.
+    + assert ((- k) <= - n / Zpos d)%Z; [apply Z.div_le_lower_bound; lia|lia].
+    + assert (- n / Zpos d < - k)%Z; [apply Z.div_lt_upper_bound; lia|lia].
+Qed.
+Lemma cmp_floor : forall e L0 k, num_ok e = true -> is_infinite e = false -> n_floor e = NInt L0 ->
+    (forall x, num_eqb (NInt x) e = is_integer e && (x =? L0)%Z) /\
+    match pos_cmp (npos e) (ipos k) with
+    | Eq => is_integer e = true /\ L0 = k
+    | Gt => if is_integer e then (k < L0)%Z else (k <= L0)%Z
+    | Lt => (L0 < k)%Z
+    end.
+Proof.
+  intros e L0 k He Hi HL. destr_num e.
+  - simpl in HL. inversion HL; subst. split; [intro x; reflexivity|].
+    rewrite npos_int, ipos_cmp. simpl is_integer.
+    destruct (Z.compare_spec L0 k); auto.
+  - simpl in HL. inversion HL; subst. clear HL. split; [intro x; reflexivity|].
+    apply num_ok_rat in He. destruct He as [Hg Hd].
+    change (npos (NRat n d)) with (PFin (n # d) 0). simpl is_integer.
+    rewrite rat_ipos_cmp.
+    assert (Hpos : (0 < Zpos d)%Z) by lia.
+    destruct (Z.compare_spec n (k * Zpos d)) as [E|E|E].
+    + exfalso. apply (rat_not_int n d k Hg Hd). apply Qcmp_Eq. unfold Qeq; simpl. lia.
+    + assert (n / Zpos d < k)%Z; [apply Z.div_lt_upper_bound; lia|lia].
+    + assert (k <= n / Zpos d)%Z; [apply Z.div_le_lower_bound; lia|lia].
+Qed.
+
 Lemma ivl_inter_numset_ok : forall s e lo ro o r,
     wf_set (SInterval s e lo ro) = true ->
     (o = SIntegers \/ o = SNaturals \/ o = SNaturals0) ->
@@ -129,35 +180,51 @@ Proof.
     - apply Hw; auto. destruct Ho as [->|[->| ->]]; reflexivity.
     - intro p. rewrite Hin. reflexivity. }
   apply orb_false_elim in Einf. destruct Einf as [Eis Eie].
-  destruct (ceil_spec s Hs Eis) as [F0 [HF0 HFs]]. destruct (floor_spec e He Eie) as [L0 [HL0 HLs]].
+  destruct (ceil_spec s Hs Eis) as [F0 [HF0 _]]. destruct (floor_spec e He Eie) as [L0 [HL0 _]].
   rewrite HF0, HL0 in H.
-  set (F1 := if is_naturals o && negb (0 <? F0)%Z then 1%Z else if is_naturals0 o && (F0 <? 0)%Z then 0%Z else F0) in *.
-  set (F2 := if num_eqb (NInt F1) s && lo then (F1 + 1)%Z else F1) in *.
-  set (L2 := if num_eqb (NInt L0) e && ro then (L0 - 1)%Z else L0) in *.
-  (* what the three bounds mean for an integer k *)
   assert (HmemO : forall k p, ipos k =p ppos p ->
             In_set p o = match o with SNaturals => (0 <? k)%Z | SNaturals0 => (0 <=? k)%Z | _ => true end).
   { intros k p Hk. destruct (at_int_point k p Hk) as [A1 [A2 A3]].
     destruct Ho as [->|[->| ->]]; simpl; assumption. }
+  (* the interval of integers the code enumerates, against the specification, at an integer k *)
+  set (F1 := if is_naturals o && negb (0 <? F0)%Z then 1%Z else if is_naturals0 o && (F0 <? 0)%Z then 0%Z else F0) in *.
+  set (F2 := if num_eqb (NInt F1) s && lo then (F1 + 1)%Z else F1) in *.
+  set (L2 := if num_eqb (NInt L0) e && ro then (L0 - 1)%Z else L0) in *.
   assert (Hcore : forall k p, ipos k =p ppos p ->
             (F2 <=? k)%Z && (k <=? L2)%Z = in_interval s e lo ro p && In_set p o).
   { intros k p Hk. rewrite (HmemO k p Hk), (in_interval_at_int s e lo ro k p Hk).
-    pose proof (HFs k) as HF. pose proof (HLs k) as HL.
-    assert (Heqs : num_eqb (NInt F1) s = true <-> ipos F1 =p npos s) by (apply num_eqb_pos; auto).
-    assert (Heqe : num_eqb (NInt L0) e = true <-> ipos L0 =p npos e) by (apply num_eqb_pos; auto).
-    pose proof (HFs F0) as HF00. pose proof (HLs L0) as HL00.
-    pose proof (HFs (F0 - 1)%Z) as HF0m. pose proof (HLs (L0 + 1)%Z) as HL0p.
-    pose proof (ipos_lt k F1). pose proof (ipos_lt F1 k). pose proof (ipos_eq F1 k).
-    pose proof (ipos_lt k L0). pose proof (ipos_lt L0 k). pose proof (ipos_eq L0 k).
-    pose proof (ipos_le F0 F1). pose proof (ipos_le F1 F0).
-    unfold F2, L2, F1 in *. clear F2 L2 F1.
-    destruct (pos_cmp_spec (npos s) (ipos k)) as [[-> C1]|[[-> C1]|[-> C1]]];
-      destruct (pos_cmp_spec (npos e) (ipos k)) as [[-> C2]|[[-> C2]|[-> C2]]]; try (exfalso; pord).
-    all: destruct Ho as [->|[->| ->]]; simpl is_naturals in *; simpl is_naturals0 in *; cbn [andb negb] in *.
-    all: repeat match goal with
-         | |- context [num_eqb ?a ?b] => destruct (num_eqb a b) eqn:?
-         | H : context [num_eqb ?a ?b] |- _ => destruct (num_eqb a b) eqn:?
-         end.
-    all: admit. }
-  admit.
-Admitted.
+    destruct (cmp_ceil s F0 k Hs Eis HF0) as [Hes Cs]. destruct (cmp_floor e L0 k He Eie HL0) as [Hee Ce].
+    unfold F2, L2. rewrite (Hes F1), (Hee L0). unfold F1. clear F2 L2 F1 H HmemO.
+    destruct (pos_cmp (npos s) (ipos k)); destruct (pos_cmp (npos e) (ipos k));
+      destruct (is_integer s); destruct (is_integer e);
+      destruct Ho as [->|[->| ->]]; cbn [is_naturals is_naturals0 andb negb];
+      destruct lo; destruct ro; cbn [andb negb];
+      try (match type of Cs with _ /\ _ => destruct Cs as [Cs1 Cs2] end);
+      try (match type of Ce with _ /\ _ => destruct Ce as [Ce1 Ce2] end); try discriminate;
+      zb. }
+  destruct (L2 <? F2)%Z eqn:Elt.
+  { (* no integer between the bounds *)
+    minv. split; [reflexivity|]. intro p. simpl.
+    destruct (in_integers p) eqn:Ei.
+    - destruct (int_point p Ei) as [k Hk]. rewrite <- (Hcore k p Hk). apply Z.ltb_lt in Elt. zb.
+    - symmetry. apply andb_false_intro2.
+      destruct Ho as [->|[->| ->]]; simpl; auto.
+      + destruct (in_naturals p) eqn:E; [apply in_naturals_integers in E; congruence|reflexivity].
+      + destruct (in_naturals0 p) eqn:E; [apply in_naturals0_integers in E; congruence|reflexivity]. }
+  destruct (ENUM_LIMIT <? L2 - F2)%Z; [minv|].
+  minv. pose proof (nb_make_ok _ _ Hm) as Hsx. split.
+  - apply finiteset_wf. apply (forallb_ok_same x _ Hsx). apply int_range_ok.
+  - intro p. rewrite finiteset_In, (in_finite_same x _ p Hsx).
+    apply Z.ltb_ge in Elt.
+    destruct (in_integers p) eqn:Ei.
+    + destruct (int_point p Ei) as [k Hk]. rewrite <- (Hcore k p Hk).
+      rewrite (in_finite_int_range _ F2 k p Hk). rewrite Z2Nat.id by lia. zb.
+    + transitivity false.
+      * destruct (in_finite (int_range (Z.to_nat (L2 - F2 + 1)) F2) p) eqn:E; [|reflexivity].
+        apply in_finite_int_range_only in E. destruct E as [k Hk].
+        destruct (at_int_point k p Hk) as [A _]. congruence.
+      * symmetry. apply andb_false_intro2.
+        destruct Ho as [->|[->| ->]]; simpl; auto.
+        -- destruct (in_naturals p) eqn:E; [apply in_naturals_integers in E; congruence|reflexivity].
+        -- destruct (in_naturals0 p) eqn:E; [apply in_naturals0_integers in E; congruence|reflexivity].
+Qed.
